@@ -311,6 +311,9 @@ def outcome_abs(o: Outcome):
 
 
 # ---- CEL source for an abstract value ----
+TS_OFFSETS = [0, 60, -210, 345]      # minutes: Z, +01:00, -03:30, +05:45
+
+
 def lit(a) -> str:
     t = a["t"]
     if t == "int":
@@ -343,7 +346,14 @@ def lit(a) -> str:
     if t == "map":
         return "{" + ", ".join("%s: %s" % (lit(k), lit(v)) for k, v in a["v"]) + "}"
     if t == "timestamp":
-        return 'timestamp("%s")' % rfc3339(a["v"])
+        # the same instant written in one of four zones (the zone a timestamp was written in is no part of its value)
+        us = a["v"]
+        off = TS_OFFSETS[(us // 10**6 + us // 86400000000) % len(TS_OFFSETS)]
+        lo, hi = -62135596800 * 10**6 + 2 * 86400 * 10**6, 253402300799 * 10**6 - 2 * 86400 * 10**6
+        if off and lo < us < hi:
+            text = rfc3339(us + off * 60 * 10**6)[:-1] + "%s%02d:%02d" % ("+" if off > 0 else "-", abs(off) // 60, abs(off) % 60)
+            return 'timestamp("%s")' % text
+        return 'timestamp("%s")' % rfc3339(us)
     if t == "duration":
         us = a["v"]
         sign = "-" if us < 0 else ""
